@@ -435,6 +435,19 @@ pub fn sites(tier: Tier) -> Vec<Site> {
                 }
             }));
     }
+    // ... nor between threads: histories of 2 and 3 encodes spread over two threads (refused packets among them)
+    {
+        let mut corpus: Vec<(String, (bool, Packet))> = vec![];
+        for k in spec::load().iter() {
+            if !["TINY", "SMALL", "MSO", "MST", "MCI", "NPL", "AXM", "BTN"].contains(&k.name.as_str()) { continue; }
+            let c = k.name.len() % 2 == 0;
+            let Some(f) = spec::ref_encode(k, &crate::gen::baseline(k, 1), c) else { continue };
+            let mut b = BytesMut::from(&f[..]);
+            if let Ok(Some(p)) = Codec::new(mode_of(c)).decode(&mut b) { corpus.push((format!("encode {} ({})", k.name, if c { "compressed" } else { "uncompressed" }), (c, p))); }
+        }
+        for (n, p) in super::e2props::refused_packets() { corpus.push((format!("encode {n}"), (true, p))); }
+        sites.push(crate::crossthread::site("C03", "cross-thread-encodes", "Codec::encode", corpus, |(c, p): &(bool, Packet)| Codec::new(mode_of(*c)).encode(p).map(|b| b.to_vec()).map_err(|_| ())));
+    }
     let _ = Packet::default();
     sites
 }
